@@ -89,6 +89,8 @@ def _new_label_like(x, v):
 
 
 def check_views(case):
+    from vf.props import c02 as _c02
+    del _c02.DEFERRED[:]   # (findings that C02 lists and reports at the end of its own cases are not re-reported here)
     b = case['base']
     ih = lib(construct, b)
     if isinstance(ih, Raised):
@@ -246,11 +248,16 @@ def level_selector(draw, labels_at_depth, innermost, n):
     if innermost:
         kinds.append('bool')
         kinds.append('rslice')
+        kinds.append('sslice')
     k = draw(st.sampled_from(kinds))
     if k == 'rslice':
         # a descending slice with an open stop at the innermost depth: from a label (or the last one) down to the first
         # of each visited parent (an explicit stop of a descending label slice is a listed C04 finding)
         return {'k': 'rslice', 'a': draw(st.one_of(st.none(), st.sampled_from(pool)))}
+    if k == 'sslice':
+        # a stepped slice at the innermost depth: from a label (or the first one) onwards, every second / third label of
+        # each visited parent
+        return {'k': 'sslice', 'a': draw(st.one_of(st.none(), st.sampled_from(pool))), 'step': draw(st.sampled_from([2, 3, 2]))}
     if k == 'all':
         return {'k': 'all'}
     if k == 'label':
@@ -295,7 +302,7 @@ def model_hloc(labels, sels):
     """Positions selected by per-depth selectors, in the statement's order."""
     depth = len(labels[0])
     sels = list(sels) + [{'k': 'all'}] * (depth - len(sels))
-    multiple = any(s['k'] in ('list', 'slice', 'all', 'bool', 'rslice') for s in sels)
+    multiple = any(s['k'] in ('list', 'slice', 'all', 'bool', 'rslice', 'sslice') for s in sels)
 
     def rec(items, d):
         # items: list of (position, tuple) sharing the prefix of length d
@@ -335,6 +342,13 @@ def model_hloc(labels, sels):
                     raise Discard('slice-endpoint-absent-in-visited-subtree')
                 ia = keys.index(repr(canon(s['a'])))
             chosen = keys[:ia + 1][::-1]
+        elif s['k'] == 'sslice':
+            ia = 0
+            if s['a'] is not None:
+                if repr(canon(s['a'])) not in groups:
+                    raise Discard('slice-endpoint-absent-in-visited-subtree')
+                ia = keys.index(repr(canon(s['a'])))
+            chosen = keys[ia::s['step']]
         elif s['k'] == 'bool':
             out = []
             for p, t in items:
@@ -363,6 +377,8 @@ def _real_sel(s):
         return slice(s['a'], s['b'])
     if s['k'] == 'rslice':
         return slice(s['a'], None, -1)
+    if s['k'] == 'sslice':
+        return slice(s['a'], None, s['step'])
     return s['v']
 
 
